@@ -183,6 +183,9 @@ def run(rep, tier):
     locsets.check_fresh(prog, rep, "R9", CONTRA + COV + ["J", "hy"], ["orthogonal", "non-orthogonal", "orthogonal/capBp"])
     memo_rule(prog, rep)
     r10(prog, rep, f)
+    from ..report import Premise
+    from . import c18
+    c18.mla_rules(prog, Premise(rep, "R8", "C18"), "R3")
     rep.undecided("covariant components vs scalar products of actual displacements (numerical)")
     rep.undecided("accuracy of beta computed from radial neighbours")
     return __doc__
